@@ -426,6 +426,26 @@ func checkC13(c C13Case) Verdict {
 			return bad(true, "the sources loaded from a directory (AddTemplateDir / AddGlobalsFile) produce a different artefact than the same sources added as strings; first difference at %s\n%s", firstDiff(base, fromDir), showSources(names, srcs))
 		}
 	}
+	// the same directory of files on a file system that lists its entries in the order of their creation
+	// (tmpfs), written once in one order and once in the reverse: AddTemplateDir is given the same
+	// sources both times - whichever of several errors it reports, it reports the same one
+	if st, serr := os.Stat("/dev/shm"); n >= 2 && serr == nil && st.IsDir() && !(c.BreakFile >= 0 && c.BreakKind == 8) && !c.DupGlobals {
+		c13Dir = filepath.Join("/dev/shm", fmt.Sprintf("verif-c13-%d-%s", os.Getpid(), shard()))
+		rev := make([]int, n)
+		for i := range rev {
+			rev[i] = n - 1 - i
+		}
+		a1, _, _, _ := artefact2(c, identityOrder(n))
+		a2, _, _, _ := artefact2(c, rev)
+		os.RemoveAll(c13Dir)
+		c13Dir = ""
+		if a1 != a2 {
+			return bad(true, "a directory of the same files (AddTemplateDir), created on disk in another order on a file system that lists entries in creation order, compiles to another result; first difference at %s\n%s", firstDiff(a1, a2), showSources(names, srcs))
+		}
+		if c13rec != nil {
+			c13rec.add("directory_order_pairs", 1)
+		}
+	}
 	// child processes (a fresh hash seed, fresh init order)
 	children := 0
 	if os.Getenv("VERIF_C13_CHILD") == "" {
